@@ -397,6 +397,8 @@ def check_indent_emission(run: Run) -> None:
                             else:
                                 why = f"the run is taken by {pat!r}, whose look-ahead is also satisfied by {admits!r}: on a line of two or more spaces and nothing else the match backs off by one space and an INDENT is emitted for a blank line"
                             del sub
+        if why is None and loops and any(isinstance(x, ast.AugAssign) for w in loops for x in ast.walk(w)):
+            why = "the spaces are counted by a loop, but the INDENT token is built without `content[pos] != newline` having held"
         if why is None:
             raise AnalysisError("tokenize: the condition under which the INDENT token is built is not in a form this check reads (counting loop + newline test, or a ` +` regex with a look-ahead); R03.11 is not decided")
         run.instance("R03.11", lx.loc(c), f"tokenize: INDENT token: {why}", ok=ok)
